@@ -30,6 +30,11 @@ def main():
     free += [s + sfx for s in ("m", "km", "5 m", "kB", "KiB km", "MiB⁻¹⋅μs") for sfx in ("^" + "9" * 50, "^" + "9" * 400, "^" + "9" * 5000, "^-" + "9" * 400, "⁹" * 400, "⁻" + "⁹" * 5000)]
     free += ["9" * n + " m" for n in (20, 400, 4400)] + ["1e400 m", "-1e400 m", "1e-400 m", "9" * 400 + ".5 m", "." + "9" * 400 + " m", "5e" + "9" * 30 + " m", "inf m", "nan m", "+5 m", "- 5 m", "5 - m"]
     free += ["KiB km^" + "9" * 400, "KiB/km^" + "9" * 400, "km/KiB" + "⁹" * 400, "MiB⁻" + "⁹" * 320 + "⋅μs", "km GHz^" + "9" * 400, "5 KiB km^" + "9" * 400, "kB^" + "9" * 400, "mA kB^" + "9" * 330]
+    N308 = "3" + "0" * 307
+    free += [f"KiB⋅km^{N308}/KiB⋅km^{N308}", f"2 KiB⋅km^{N308}/KiB⋅km^{N308}", f"KiB km^{N308}", f"MiB⋅ms^{N308}/MiB⋅ms^{N308}", f"kB^{N308}/kB^{N308}"]
+    for u in ("m", "km/s", "KiB", "Hz", "kg m^2"):      # the same amount in both numeric spellings, in both orders
+        for a, b in (("7", "7.0"), ("12.0", "12"), ("0", "-0.0"), ("1000", "1e3"), ("5", "5e0"), ("3.0", "3")):
+            free += [f"{a} {u}", f"{b} {u}"]
     free += ["km zeebles", "Mm kg $", "5 mA zeebles", "mA/zeebles", "kHz⋅zz", "μs ms ns qq", "5 km/", "km ^2", "kHz MHz GHz THz zz"]     # a prefixed unit resolved before the input is rejected
     alphabet = "mskgKAΩμ°.-()15 ^*/⋅²⁻¹eE+\t\n" + "".join(chr(rng.randrange(32, 0x3000)) for _ in range(40)) + "\u0000퟿\U0001F600"
     for _ in range(500 if quick else 10000):
@@ -62,6 +67,9 @@ def main():
                 k = x["m"][0]
                 if k not in ("int", "float"):
                     c.violation("magnitude-type", f"magnitude of kind {k}", repl)
+                written = "int" if re.fullmatch(r"[+-]?[0-9]+", lit) else ("float" if re.fullmatch(r"[+-]?([0-9]+\.[0-9]*|\.[0-9]+|[0-9]+)([eE][+-]?[0-9]+)?", lit) else None)
+                if written and k != written:
+                    c.violation("magnitude-type-written", f"the magnitude was written as {written} ({lit!r}) but came back as {k}", repl)
     # ---------------- model = implementation on the structured inputs (kernel)
     td = C13.tables_coq(T)
     items = []
